@@ -280,6 +280,19 @@ def r03_5(ctx):
                'the accept callback runs inside `with %s`, the lock _set takes' % '/'.join(sorted(locks)) if inside else
                'the accept callback runs after the handle lock was released: another thread can resolve the job and '
                'run its result / error callback before or during the accept callback')
+    # cancelling only marks the handle: the entry must still be in the cache when the worker announces the job,
+    # otherwise on_ack finds nothing, no NACK is sent and the worker waits for the answer forever
+    cn_ = m.func('pool:ApplyResult._cancel')
+    removes = [c for c in walk_own(cn_.node) if isinstance(c, ast.Call) and
+               (cn_.callee(c) in ('self.discard', 'self._cache.pop', 'self._cache.clear') or
+                cn_.callee(c).endswith('.discard') and cn_.callee(c).startswith('self.'))]
+    removes += [d for d in walk_own(cn_.node) if isinstance(d, ast.Delete) and 'self._cache' in ast.unparse(d)]
+    marks = [dn for (dn, t, v) in q.assigns(cn_, 'self._cancelled') if isinstance(v, ast.Constant) and v.value is True]
+    ctx.ob('R03.5', '_cancel:marks-but-leaves-the-entry-for-the-handshake', bool(marks) and not removes, cn_,
+           removes[0] if removes else None,
+           'self._cancelled = True, the cache entry stays' if not removes else
+           '_cancel removes the cache entry: the ACK of the cancelled job finds nobody to answer it, no NACK is sent '
+           'and the worker stays in wait_for_syn (it never takes another job)')
     # cancelled arm
     canc = lambda n: q.has_guard(fi, n, 'self._cancelled', True)
     bad = []
@@ -420,6 +433,8 @@ def run(ctx):
 
 _P = 'billiard/pool.py'
 MUTANTS = [
+    ('cancel-drops-the-cache-entry', _P, "        \"\"\"Only works if synack is used.\"\"\"\n        self._cancelled = True\n",
+     "        \"\"\"Only works if synack is used.\"\"\"\n        self._cancelled = True\n        self.discard()\n", 'R03.5'),
     ('accept-callback-outside-the-handle-lock', _P,
      "            response = ACK\n            if self._accept_callback:\n                try:\n                    self._accept_callback(pid, time_accepted)\n                except self._propagate_errors:\n                    response = NACK\n                    raise\n                except Exception:\n                    response = NACK\n                    # ignore other errors\n            if self._send_ack and synqW_fd:\n                return self._send_ack(response, pid, self._job, synqW_fd)\n",
      "        response = ACK\n        if self._accept_callback:\n            try:\n                self._accept_callback(pid, time_accepted)\n            except self._propagate_errors:\n                response = NACK\n                raise\n            except Exception:\n                response = NACK\n        if self._send_ack and synqW_fd:\n            return self._send_ack(response, pid, self._job, synqW_fd)\n", 'R03.5'),
